@@ -118,8 +118,31 @@ def near_miss_strings(v, rng):
     return out
 
 
+def share(b, a, A):
+    """the value b built so that it re-uses the objects of A (the built a) wherever the two agree: values made by rule
+    application or by the / | \\ operators share their parts by identity, values made by the reader never do"""
+    from depccg.cat import Functor
+    if a == b:
+        return A
+    if b[0] == 'A' or a[0] == 'A':
+        return refcat.from_ref(b)
+    return Functor(share(b[1], a[1], A.left), b[2], share(b[3], a[3], A.right))
+
+
 def check_pair(a, b, R, rng):
     A, B = refcat.from_ref(a), refcat.from_ref(b)
+    if a != b and a[0] == 'F' and b[0] == 'F':
+        S = share(b, a, A)
+        R.count('law:shared-parts')
+        try:
+            if (A == S) or (S == A) or not (A != S) or hash(A) == hash(S) and S in {A: 1}:
+                R.violation('cat:eq-hash', f'different values sharing their equal parts by identity compare equal: '
+                            f'{refcat.ref_print(a)} vs {refcat.ref_print(b)}', {'a': refcat.ref_print(a), 'b': refcat.ref_print(b), 'shared': True})
+            if bool(A ^ S) != (refcat.blind(a) == refcat.blind(b)):
+                R.violation('cat:xor', f'feature-blind comparison of values sharing parts by identity is wrong: '
+                            f'{refcat.ref_print(a)} vs {refcat.ref_print(b)}', {'a': refcat.ref_print(a), 'b': refcat.ref_print(b), 'shared': True})
+        except Exception as e:
+            R.violation('cat:eq-hash', f'comparison raised {e!r}', {'a': refcat.ref_print(a), 'b': refcat.ref_print(b), 'shared': True})
     same = a == b
     blind_same = refcat.blind(a) == refcat.blind(b)
     R.case((a, b), same or blind_same)
